@@ -83,6 +83,97 @@ func c03Judge(r *core.Run, p C03Case, data, plain []byte, site, desc string) {
 	r.Nontrivial(core.Hash(site, cls, c03Path(p)))
 }
 
+type c03Extreme struct {
+	name       string
+	lz2, plain []byte
+}
+
+var c03ExtremeCache atomic.Value
+
+// c03Extremes builds chunk sequences whose size fields sit at the limits of the format: an LZMA
+// chunk of exactly 65536 compressed bytes (field 0xFFFF) and of 65535; an LZMA chunk of exactly
+// 2 MiB uncompressed (field 0x1FFFFF) and of 2 MiB - 1; uncompressed chunks of 65536 bytes and of
+// 1 byte; an LZMA chunk with a single literal.
+func c03Extremes() []c03Extreme {
+	if v := c03ExtremeCache.Load(); v != nil {
+		return v.([]c03Extreme)
+	}
+	var out []c03Extreme
+	pr := ref.Props{LC: 3, LP: 0, PB: 2}
+	rnd := randBytes(91, 70000)
+	litChunk := func(n int) (*ref.LZMA2Gen, int) {
+		g := ref.NewLZMA2Gen()
+		ops := make([]ref.Op, n)
+		for i := range ops {
+			ops[i] = ref.Op{Kind: ref.OpLit, Byte: rnd[i]}
+		}
+		if _, err := g.Add(ref.ChunkSpec{Kind: ref.CLZMAFull, Ops: ops, Props: pr}); err != nil {
+			return nil, 1 << 30
+		}
+		comp := (int(g.Out[3])<<8 | int(g.Out[4])) + 1
+		return g, comp
+	}
+	for _, want := range []int{65536, 65535} {
+		// the compressed size grows by about one byte per random literal: bisect, then scan
+		lo, hi := 60000, 66000
+		for lo < hi {
+			mid := (lo + hi) / 2
+			if _, c := litChunk(mid); c < want {
+				lo = mid + 1
+			} else {
+				hi = mid
+			}
+		}
+		for n := lo - 3; n <= lo+3; n++ {
+			if g, c := litChunk(n); c == want {
+				g.Add(ref.ChunkSpec{Kind: ref.CLZMA, Ops: []ref.Op{{Kind: ref.OpLit, Byte: 'x'}, {Kind: ref.OpMatch, Len: 9, Dist: 1}}})
+				g.Add(ref.ChunkSpec{Kind: ref.CEnd})
+				out = append(out, c03Extreme{fmt.Sprintf("lzma-chunk-compressed=%d", want), g.Out, g.Plain})
+				break
+			}
+		}
+	}
+	for _, un := range []int{1 << 21, 1<<21 - 1} {
+		g := ref.NewLZMA2Gen()
+		ops := []ref.Op{{Kind: ref.OpLit, Byte: 'u'}}
+		for n := 1; n < un; {
+			l := un - n
+			if l > 273 {
+				l = 273
+			}
+			if l == 1 {
+				ops = append(ops, ref.Op{Kind: ref.OpLit, Byte: 'u'})
+			} else {
+				if un-n-l == 1 {
+					l--
+				}
+				ops = append(ops, ref.Op{Kind: ref.OpMatch, Len: l, Dist: 1})
+			}
+			n += l
+		}
+		if _, err := g.Add(ref.ChunkSpec{Kind: ref.CLZMAFull, Ops: ops, Props: pr}); err != nil {
+			panic(err)
+		}
+		g.Add(ref.ChunkSpec{Kind: ref.CLZMA, Ops: []ref.Op{{Kind: ref.OpLit, Byte: 'v'}, {Kind: ref.OpMatch, Len: 5, Dist: 2}}})
+		g.Add(ref.ChunkSpec{Kind: ref.CEnd})
+		out = append(out, c03Extreme{fmt.Sprintf("lzma-chunk-uncompressed=%d", un), g.Out, g.Plain})
+	}
+	{
+		g := ref.NewLZMA2Gen()
+		g.Add(ref.ChunkSpec{Kind: ref.CRawReset, Raw: rnd[:65536]})
+		g.Add(ref.ChunkSpec{Kind: ref.CRaw, Raw: []byte{'r'}})
+		g.Add(ref.ChunkSpec{Kind: ref.CLZMAProps, Ops: []ref.Op{{Kind: ref.OpLit, Byte: 'l'}}, Props: pr})
+		g.Add(ref.ChunkSpec{Kind: ref.CRaw, Raw: rnd[:65535]})
+		g.Add(ref.ChunkSpec{Kind: ref.CEnd})
+		out = append(out, c03Extreme{"raw-chunks-65536-1-65535+single-literal-chunk", g.Out, g.Plain})
+	}
+	if len(out) != 5 {
+		panic(fmt.Sprintf("C03: only %d of 5 size-field extremes could be generated", len(out)))
+	}
+	c03ExtremeCache.Store(out)
+	return out
+}
+
 func dictCodeFor(n int) byte {
 	for c := byte(0); c <= 40; c++ {
 		if s, _ := ref.DictSizeFromCode(c); int64(s) >= int64(n) {
@@ -126,6 +217,13 @@ func c03Run(r *core.Run, p C03Case) {
 		c03Chunks(r, p)
 	case "container":
 		c03Container(r, p)
+	case "extreme":
+		for _, e := range c03Extremes() {
+			if e.name == p.File {
+				data := ref.EncodeXZStream(ref.CheckCRC32, []ref.XZBlockSpec{{LZMA2: e.lz2, Plain: e.plain, DictCode: dictCodeFor(4096)}})
+				c03Judge(r, p, data, e.plain, "size-field-extreme", fmt.Sprintf("chunk size fields at their limits: %s, ReaderConfig.DictCap=%d", e.name, p.DictCap))
+			}
+		}
 	case "corpus":
 		for _, e := range bindRef(nil) {
 			if e.File == p.File {
@@ -247,7 +345,7 @@ func c03Container(r *core.Run, p C03Case) {
 func runC03(r *core.Run) {
 	corpus := bindRef(r)
 	th := thorough(r)
-	r.Rule = "streams from the specification-driven generator: (a) ALL legal operation sequences of depth d over {lit x3, match(len x dist incl. the window edge), rep0 x2, shortrep, rep1-3} from the empty window and after fill prefixes 127/4095/4096/4097 (extended distances covering every distance-slot class); (b) a fixed op list x all 75 property sets; (c) every split into <=3 chunks x every legal chunk kind per position with different properties; (d) 4 checks x size fields x header padding x {0,1,2,3 blocks, empty block}; (e) the frozen liblzma corpus and fresh liblzma encodings x ReaderConfig.DictCap. states = LZMA coder states entered; transitions = (state, op kind), distance-slot/length classes, chunk-automaton steps; non-trivial = distinct (case family, outcome, empty?)"
+	r.Rule = "streams from the specification-driven generator: (a) ALL legal operation sequences of depth d over {lit x3, match(len x dist incl. the window edge), rep0 x2, shortrep, rep1-3} from the empty window and after fill prefixes 127/4095/4096/4097 (extended distances covering every distance-slot class); (b) a fixed op list x all 75 property sets; (c) every split into <=3 chunks x every legal chunk kind per position with different properties; (d) 4 checks x size fields x header padding x {0,1,2,3 blocks, empty block}; (f) chunk size fields at their limits (65536 / 65535 compressed bytes, 2 MiB / 2 MiB-1 uncompressed, raw chunks of 65536 and 1 bytes, a single-literal chunk); (e) the frozen liblzma corpus and fresh liblzma encodings x ReaderConfig.DictCap. states = LZMA coder states entered; transitions = (state, op kind), distance-slot/length classes, chunk-automaton steps; non-trivial = distinct (case family, outcome, empty?)"
 	var cases []C03Case
 	def := [3]int{3, 0, 2}
 	// (a) operation sequences, enumerated inside the workers (not materialised)
@@ -367,6 +465,12 @@ func runC03(r *core.Run) {
 	for _, nb := range []int{127, 128, 129, 300} {
 		for _, sf := range []int{0, 3} {
 			cases = append(cases, C03Case{Kind: "container", Cont: []int{4, sf, 0, nb}, DictCap: 4096})
+		}
+	}
+	// (f) chunk size fields at their limits
+	for _, e := range c03Extremes() {
+		for _, dc := range []int{4096, 1 << 22} {
+			cases = append(cases, C03Case{Kind: "extreme", File: e.name, DictCap: dc})
 		}
 	}
 	// (e) corpus × DictCap, fresh liblzma encodings
